@@ -57,9 +57,9 @@ func faultRun(t *rapid.T) {
 	if plush.CacheEnabled {
 		count("fault_cases_with_cache_on", 1)
 	}
-	renderEntry = []int{0, 0, 0, 1, 2, 3}[uni(t, "entry", 6)]
+	renderEntry = []int{0, 0, 0, 1, 2, 3, 4}[uni(t, "entry", 7)]
 	defer func() { renderEntry = 0 }()
-	count("fault_cases_entry_"+[]string{"Render-or-NewTemplate+Exec", "BuffaloRenderer", "RenderR", "Parse+Exec"}[renderEntry], 1)
+	count("fault_cases_entry_"+[]string{"Render-or-NewTemplate+Exec", "BuffaloRenderer", "RenderR", "Parse+Exec", "Exec-with-a-cancelled-Go-context"}[renderEntry], 1)
 	mode := uni(t, "mode", 10)
 	switch {
 	case mode <= 5:
